@@ -44,6 +44,8 @@ def literal(k):
 
 
 CODE_ENTRIES = (optree.GetItemEntry, optree.GetAttrEntry, U.MyEntry)
+TWIN_CLASSES = (optree.PyTreeEntry, optree.GetItemEntry, optree.GetAttrEntry, optree.FlattenedEntry, optree.SequenceEntry, optree.MappingEntry, optree.DataclassEntry,
+                optree.NamedTupleEntry, optree.StructSequenceEntry)
 
 
 def check_case(sink, c, o):  # noqa: C901
@@ -108,6 +110,31 @@ def check_case(sink, c, o):  # noqa: C901
                     val = e
                 sink.check(val is leaves[i], 'codify-eval', 'eval(accessor.codify("t")) is the leaf', ident, lambda: dict(code=code, got=val))
                 sink.count('codify-evaluated')
+        # equality / hash consistency across entry classes: whenever two entries (or accessors) compare
+        # equal - also entries of *different* classes built for the same (entry, type, kind) - they hash equally
+        for i in range(min(n, 3)):
+            a = accs[i]
+            for pos, e in enumerate(a[:4]):
+                twins = []
+                for cls in TWIN_CLASSES + (type('SubEntry', (type(e),), {'__slots__': ()}),):
+                    try:
+                        twins.append(cls(e.entry, e.type, e.kind))
+                    except Exception:  # noqa: BLE001
+                        continue
+                for t in twins:
+                    try:
+                        eq, eq2 = (e == t), (t == e)
+                        he, ht = hash(e), hash(t)
+                    except Exception:  # noqa: BLE001
+                        continue
+                    sink.check(eq == eq2, 'entry-eq-symmetric', 'entry equality is symmetric', ident, lambda: (repr(e), repr(t)))
+                    if eq:
+                        sink.check(he == ht and len({e, t}) == 1, 'entry-eq-hash/' + type(e).__name__ + '-vs-' + type(t).__mro__[1].__name__ if type(t).__name__ == 'SubEntry' else 'entry-eq-hash/' + type(e).__name__ + '-vs-' + type(t).__name__,
+                                   'equal entries hash equally', ident, lambda: (repr(e), repr(t), he, ht))
+                        b = optree.PyTreeAccessor((*a[:pos], t, *a[pos + 1:]))
+                        sink.check(a == b and hash(a) == hash(b) and b in {a} and hash(a[:pos] + b[pos:]) == hash(a), 'accessor-eq-hash/mixed-classes',
+                                   'accessors that compare equal hash equally (also when built from equal entries of other classes)', ident, lambda: (repr(a), repr(b)))
+                        sink.count('equal-entry-twins')
         # distinctness and prefix-freeness
         m = min(n, 40)
         bad = None
@@ -171,6 +198,7 @@ def finalize(sink, tier, seed):
     sink.require('oracle:accessor[i](tree) is leaf[i]')
     sink.require('codify-evaluated')
     sink.require('real-structseq-probes')
+    sink.require('equal-entry-twins', 100)
     for cell in ('entry/FlattenedEntry/CUSTOM', 'entry/DataclassEntry/CUSTOM', 'entry/NamedTupleEntry/NAMEDTUPLE', 'entry/StructSequenceEntry/STRUCTSEQUENCE',
                  'entry/MyEntry/CUSTOM', 'entry/GetAttrEntry/CUSTOM', 'entry/MappingEntry/CUSTOM', 'entry/SequenceEntry/DEQUE'):
         if sink.cells.get(cell, 0) == 0:
